@@ -129,13 +129,26 @@ def digest_tables():
     for n in ('r_eax', 'r_cl', 'r_ax', 'r_dx', 'segm_regs', 'prefix_seg', 'att_mnemo_table', 'mnemo_mmx_hash'):
         if hasattr(A, n): walk(getattr(A, n))
     walk(S.mnemo_func); walk(S.init_regs)
+    for n in sorted(dir(S)):
+        v = getattr(S, n)
+        if isinstance(v, (list, tuple, dict)) and not n.startswith('__') and n not in ('mnemo_func', 'init_regs'):
+            walk(n); walk(v)
+    rex = getattr(S, 'ia32_rexpr', None)
+    if rex is not None:
+        for n in sorted(k for k in dir(rex) if not k.startswith('__')):
+            v = getattr(rex, n)
+            if isinstance(v, (list, tuple, dict)): walk(n); walk(v)
     walk([edesc(getattr(S, n)) for n in sorted(dir(S)) if type(getattr(S, n)).__name__.startswith('Expr')])
     return h.hexdigest()
 
 # =========================================================================================== the history machine
 BYTES = ['90', '88e4', '88c0', '6689db', '89d8', '01d8', '8b4304', '894304', '034c8b08', 'ff30', '50', '5b', 'c3', 'e800000000', '7402', 'eb10',
          'f3a4', 'aa', 'ac', 'd8c1', 'd9450c', '0fb6c3', '0fbec8', 'c1e003', 'd3e0', 'f7d8', '0fafc3', '6bc005', '8d448b04', 'a100100000', 'a300100000',
-         '648b00', '83c005', '6683c005', '80c405', '0f95c0', '0f44c3', '0fa3d8', '0fc8', '99', '98', 'c9', 'c8100000', '0f6fc1', '660fefc0', 'f20f10c1', '0f0b', 'cd80', '87d8', '0fb1d8', '0fc1d8']
+         '648b00', '83c005', '6683c005', '80c405', '0f95c0', '0f44c3', '0fa3d8', '0fc8', '99', '98', 'c9', 'c8100000', '0f6fc1', '660fefc0', 'f20f10c1', '0f0b', 'cd80', '87d8', '0fb1d8', '0fc1d8',
+         # the same ModRM/SIB byte under different prefixes / mnemonic classes (table rows shared between decodes), whole-register-file instructions,
+         # 16-bit address size, relative branches (operand descriptors shared between table entries)
+         '8b0418', '648b0418', '668b0418', '8d0418', '8a0418', '8b0424', '368b0424', '8b00', '8a00', '0fb600', '60', '61', '6660', '6661', '9c', '9d',
+         '678b00', '67e800000000', 'e800000000', '670f8400000000', '0f8400000000', '0f8510000000', '66e80000', 'e2fe', '67e2fe', '7405', 'eb05', 'e910000000']
 BAD_BYTES = ['0f', '0fff', 'ff', '66', 'd6' * 0 or 'f1f1f1', '0f0f', '8b']
 LINES = ['mov eax, ebx', 'add eax, 5', 'mov eax, DWORD PTR [ebx+4]', 'mov DWORD PTR [ebx+ecx*4+8], eax', 'push eax', 'pop ebx', 'lea eax, [ebx+esi*2+16]', 'mov ah, ah',
          'jmp [DWORD PTR .L40[0+eax*4]]', 'call [DWORD PTR R]', 'call [DWORD PTR [esp+16+eax*4]]', 'mov eax, dword ptr gs:[0x00000014]', 'mov eax, 4[ebx]', 'mov eax, DWORD PTR -4[ebx]',
@@ -222,6 +235,27 @@ class World(object):
         self.I = []          # decoded instructions
         self.F = []          # lifted assignment lists
         self.nE0 = len(self.E)
+        self.B = BYTES
+
+    def first_instr(self, a):
+        """a decoded instruction for the instruction pool (the first byte string from position a on that decodes)"""
+        from miasmx.arch.ia32_arch import x86mnemo
+        for k in range(len(BYTES)):
+            try: i = x86mnemo.dis(binascii.unhexlify(BYTES[(a + k) % len(BYTES)]))
+            except Exception: i = None
+            if i is not None: return i
+        raise RuntimeError('no byte string of the pool decodes')
+
+    def first_affs(self, a):
+        from miasmx.arch.ia32_arch import x86mnemo
+        from checks.C11 import lift
+        for k in range(len(BYTES)):
+            try:
+                i = x86mnemo.dis(binascii.unhexlify(BYTES[(a + k) % len(BYTES)]))
+                if i is not None: return lift(i)
+            except Exception:
+                continue
+        raise RuntimeError('no byte string of the pool lifts')
 
     # ---- one call; returns (result snapshot, [(argument object, label)] whose structure must not change)
     def ix(self, pool, a, op):
@@ -246,7 +280,7 @@ class World(object):
                     return snap(r), args
                 if k in ('strI', 'strA', 'lift'):
                     if not self.I:
-                        self.I.append(x86mnemo.dis(binascii.unhexlify(BYTES[a % len(BYTES)])))
+                        self.I.append(self.first_instr(a))
                     ins = self.I[self.ix(self.I, a, op)]
                     args.append((ins, 'instr'))
                     if k == 'strI': return str(ins), args
@@ -281,7 +315,7 @@ class World(object):
                     if mi == 2: mi = 3
                     m = self.M[mi]
                     if not self.F:
-                        self.F.append(lift(x86mnemo.dis(binascii.unhexlify(BYTES[a % len(BYTES)]))))
+                        self.F.append(self.first_affs(a))
                     affs = self.F[self.ix(self.F, a, op)]
                     args.append((affs, 'affs'))
                     r = m.eval_instr(affs)
@@ -419,16 +453,13 @@ def resolve_args(W, op):
     k, a, b = op[:3]
     if k in ('strI', 'strA', 'lift'):
         if not W.I:
-            from miasmx.arch.ia32_arch import x86mnemo
-            W.I.append(x86mnemo.dis(binascii.unhexlify(BYTES[a % len(BYTES)])))
+            W.I.append(W.first_instr(a))
         return [(W.I[W.ix(W.I, a, op)], 'instr')]
     if k in ('simp', 'getrw'): return [(W.E[W.ix(W.E, a, op)], 'expr')]
     if k == 'eval': return [(W.E[W.ix(W.E, a, op)], 'expr'), (W.M[W.ix(W.M, b, op)], 'machine')]
     if k == 'evali':
         if not W.F:
-            from miasmx.arch.ia32_arch import x86mnemo
-            from checks.C11 import lift
-            W.F.append(lift(x86mnemo.dis(binascii.unhexlify(BYTES[a % len(BYTES)]))))
+            W.F.append(W.first_affs(a))
         return [(W.F[W.ix(W.F, a, op)], 'affs')]
     return []
 
